@@ -87,7 +87,9 @@ fn c03_run(cx: &mut Ctx, s: &str, utf8: bool, kind: &str) {
                 // canonical witness: the shortest prefix on which the logs already diverge
                 let chars: Vec<char> = s.chars().collect();
                 let mut min_prefix: String = s.to_string();
-                if kind != "replay-min" && chars.len() > 1 {
+                // (quadratic: only for inputs of ordinary length - a 70 000-character witness is
+                // reported as it is)
+                if kind != "replay-min" && chars.len() > 1 && chars.len() <= 600 {
                     for k in 1..chars.len() {
                         let p: String = chars[..k].iter().collect();
                         if c03_diverges(&p, utf8) {
@@ -392,6 +394,106 @@ impl Check for C03Check {
                 }
             }
         }
+        // zero padding of every length a digit buffer might be capped at, and parameter lists far
+        // longer than any real program sends (every parameter counts, none may be dropped, the
+        // recogniser's stack must not grow with the list)
+        if cx.begin_group("padding and long lists") {
+            let finals: Vec<char> = "HmgJKhlrABCDPX@Ld".chars().collect();
+            let mut k = 0u64;
+            for pad in [1usize, 19, 20, 39, 40, 63, 64, 65, 66, 127, 128, 129, 255, 256, 257, 1000, 4096, 70000] {
+                for f in &finals {
+                    for d in ["0", "1", "2", "3", "7", "12"] {
+                        k += 1;
+                        if !cx.mine(k) {
+                            continue;
+                        }
+                        let z = "0".repeat(pad);
+                        c03_run(cx, &format!("\x1b[{}{}{}", z, d, f), true, "padding");
+                        c03_run(cx, &format!("\x1b[2;{}{};{}{}{}", z, d, z, d, f), k % 2 == 0, "padding");
+                        c03_run(cx, &format!("{}?{}{}{}", '\u{9b}', z, d, f), false, "padding");
+                    }
+                }
+            }
+            for n in [16usize, 17, 31, 32, 33, 64, 100, 101, 128, 255, 256, 257, 1000, 3000] {
+                for f in &finals {
+                    for (vi, val) in ["", "0", "1", "5", "38"].iter().enumerate() {
+                        k += 1;
+                        if !cx.mine(k) {
+                            continue;
+                        }
+                        let list = vec![*val; n].join(";");
+                        c03_run(cx, &format!("\x1b[{}{}", list, f), true, "long-list");
+                        c03_run(cx, &format!("\x1b[{};1{}", list, f), vi % 2 == 0, "long-list");
+                        c03_run(cx, &format!("\x1b[4;{}{}", list, f), true, "long-list");
+                    }
+                }
+            }
+            cx.stats.exhaustive_parts.insert("zero padding of 18 lengths (1..70000) x 17 finals x 6 digits; parameter lists of 14 lengths (16..3000) x 17 finals x 5 values".into());
+        }
+        // two recognisers alive on one thread, fed alternately chunk by chunk (two panes of one
+        // program): each must produce the events of its own input
+        if cx.begin_group("interleaved parsers") {
+            for round in 0..400u64 {
+                if !cx.mine(round) {
+                    continue;
+                }
+                let mut rng = crate::rng::Rng::new(round * 77 + 5);
+                let pool = seq_pool();
+                let mk_stream = |rng: &mut crate::rng::Rng| -> String {
+                    let mut s = String::new();
+                    for _ in 0..2 + rng.usize(4) {
+                        if rng.below(3) == 0 {
+                            s.push_str(&gen::unit(rng, 10, 5));
+                        } else {
+                            s.push_str(rng.pick(&pool[..]).as_str());
+                        }
+                    }
+                    s.push('Z');
+                    s
+                };
+                for pk in [PK::Chars, PK::Bytes] {
+                    let (sa, sb) = (mk_stream(&mut rng), mk_stream(&mut rng));
+                    let (ca, cb): (Vec<char>, Vec<char>) = (sa.chars().collect(), sb.chars().collect());
+                    let mut a = RecSys::new(pk);
+                    let mut b = RecSys::new(pk);
+                    let (mut ia, mut ib) = (0usize, 0usize);
+                    let mut ok = true;
+                    while ok && (ia < ca.len() || ib < cb.len()) {
+                        for (sys, chars, i) in [(&mut a, &ca, &mut ia), (&mut b, &cb, &mut ib)] {
+                            if *i < chars.len() {
+                                let n = 1 + rng.usize(3);
+                                let j = (*i + n).min(chars.len());
+                                let chunk: String = chars[*i..j].iter().collect();
+                                *i = j;
+                                if catch(|| sys.feed(&chunk)).is_err() {
+                                    ok = false;
+                                }
+                            }
+                        }
+                    }
+                    cx.stats.clause("interleaved-compared");
+                    cx.stats.evaluations += 1;
+                    for (sys, text) in [(&a, &sa), (&b, &sb)] {
+                        let mut solo = RecSys::new(pk);
+                        let solo_ok = catch(|| solo.feed(text)).is_ok();
+                        if !ok || !solo_ok || solo.events() != sys.events() {
+                            let mut case = Case::new("C03", "interleaved", 1, 1, pk);
+                            case.ops = vec![Op::Feed(sa.clone()), Op::Feed(sb.clone())];
+                            case.aux = json!({ "round": round });
+                            cx.violation(Viol {
+                                prop: "C03".into(),
+                                clause: "interleaved".into(),
+                                op: "feed".into(),
+                                bucket: format!("{:?}", pk),
+                                detail: format!("two parsers on one thread fed alternately: the one given {:?} produced\n {:?}\n instead of (fed alone)\n {:?}\n (the other one was given {:?})", text, sys.events(), solo.events(), if std::ptr::eq(text, &sa) { &sb } else { &sa }),
+                                case,
+                            });
+                            break;
+                        }
+                    }
+                }
+            }
+        }
         // all ordered pairs of a pool of complete, aborted and skipped sequences: interaction
         // through state that survives a return to ground
         if cx.begin_group("sequence pairs") {
@@ -458,6 +560,17 @@ impl Check for C03Check {
             }
             return;
         }
+        if case.kind == "interleaved" {
+            // deterministic in the round number: re-run that workload
+            let mut c2 = Ctx::new(Tier::Quick, 1, 0, 1, std::time::Duration::from_secs(20));
+            self.shard(&mut c2);
+            for (_, (v, _)) in c2.stats.viols {
+                if v.clause == "interleaved" {
+                    cx.violation(v);
+                }
+            }
+            return;
+        }
         let utf8 = case.aux["utf8"].as_bool().unwrap_or(true);
         for op in &case.ops {
             if let Op::Feed(s) = op {
@@ -490,6 +603,13 @@ fn c19_payload(rng: &mut Rng) -> String {
             for _ in 0..1 + rng.usize(6) {
                 if rng.below(3) == 0 {
                     s.push_str(*rng.pick(&specials));
+                } else if rng.below(5) == 0 {
+                    // any character of the class-representative Unicode sample, bare or as the
+                    // partner of an ESC
+                    if rng.below(3) == 0 {
+                        s.push('\u{1b}');
+                    }
+                    s.push(gen::uchar(rng));
                 } else {
                     s.push((b' ' + rng.below(95) as u8) as char);
                 }
@@ -800,6 +920,50 @@ impl Check for C19Check {
                 }
             }
             cx.stats.exhaustive_parts.insert("all ordered pairs of OSC strings over 7 codes x 4 payloads on one parser (terminators / introducers rotated), every fifth extended to a triple; identical strings repeated across a RIS".into());
+        }
+        // payload lengths around the sizes a buffer cap or a narrow counter would have
+        for (i, n) in [65535usize, 65536, 65537, (1 << 20) + 37].iter().enumerate() {
+            if cx.mine(i as u64 + 3) && cx.begin_group(&format!("osc long {}", n)) {
+                let p: String = (0..*n).map(|k| (b'a' + (k % 26) as u8) as char).collect();
+                c19_run(cx, "\x1b]", if i % 2 == 0 { '2' } else { '0' }, &p, if i % 2 == 0 { "\x07" } else { "\x1b\\" }, None, if i % 2 == 0 { PK::Chars } else { PK::Bytes }, true);
+                cx.stats.exhaustive_parts.insert("payload lengths 65535, 65536, 65537 and 2^20+37".into());
+            }
+        }
+        // every Unicode scalar value inside a payload, bare and as the partner of an ESC: one
+        // long-lived parser per worker, the title read back after each string; a mismatch is
+        // handed to the full monitor for a proper verdict and witness
+        if cx.begin_group("osc unicode sweep") {
+            let mut sys = Sys::new(12, 2, PK::Chars);
+            sys.set_recording(false, false);
+            let mut complete = true;
+            for cp in 0..=0x10ffffu32 {
+                if !cx.mine(cp as u64) {
+                    continue;
+                }
+                let ch = match char::from_u32(cp) {
+                    Some(c) if !matches!(c, '\u{7}' | '\u{9c}' | '\u{1b}' | '\\') => c,
+                    _ => continue,
+                };
+                if cp % 4096 == 0 && (cx.used() > 0.6 || cx.out_of_time()) {
+                    complete = false;
+                    break;
+                }
+                let payload = format!("a{}b\x1b{}c", ch, ch);
+                let ok = sys.try_apply(&Op::Feed(format!("\x1b]2;{}\x07", payload))).is_ok() && {
+                    let t = sys.t();
+                    t.scr.title == payload && t.scr.cursor.x == 0 && t.scr.cursor.y == 0
+                };
+                cx.stats.evaluations += 1;
+                if !ok {
+                    c19_run(cx, "\x1b]", '2', &payload, "\x07", None, PK::Chars, true);
+                    sys = Sys::new(12, 2, PK::Chars);
+                    sys.set_recording(false, false);
+                }
+            }
+            if complete {
+                cx.stats.count("unicode_sweeps_completed", 1);
+                cx.stats.exhaustive_parts.insert("every Unicode scalar value (except BEL, ST, ESC, backslash) inside an OSC 2 payload, bare and as the partner of an ESC".into());
+            }
         }
         while !cx.out_of_time() {
             if !cx.begin_group("osc random") {
@@ -1447,6 +1611,58 @@ impl Check for C02Check {
             c02_stream(cx, 10, 3, Mode::BytesUtf8, b"abcdef", true, "witness");
             c02_stream(cx, 10, 3, Mode::BytesUtf8, b"\x1b[2;3Hx", true, "witness");
             c02_stream(cx, 10, 3, Mode::Chars, "\u{1b}[2;3Hxé日".as_bytes(), true, "witness");
+        }
+        // an ASCII prefix of every length a block-wise fast path might key on, then the first
+        // non-ASCII character of the stream where it is observable (an OSC title): U+FEFF, a
+        // 2-, 3- and 4-byte character, an ill-formed byte; cut exactly before it, inside it and
+        // at the block boundaries around it
+        if cx.begin_group("ascii prefix then first non-ascii") {
+            let mut k = 0u64;
+            for n in [0usize, 1, 15, 16, 17, 31, 32, 33, 63, 64, 65, 127, 128, 255, 256, 257, 511, 512, 1024, 4096] {
+                for first in ["\u{feff}", "\u{e9}", "\u{65e5}", "\u{1f600}", "\u{feff}\u{feff}"] {
+                    for mode in [Mode::BytesUtf8, Mode::Chars] {
+                        k += 1;
+                        if !cx.mine(k) {
+                            continue;
+                        }
+                        // the prefix is text and complete sequences only; the title starts right
+                        // at offset n
+                        let filler: String = (0..n).map(|i| if i % 16 == 15 { '\n' } else { (b'a' + (i % 26) as u8) as char }).collect();
+                        let head = "\x1b]2;";
+                        let pre = if n >= head.len() { format!("{}{}", &filler[..n - head.len()], head) } else { head.to_string() };
+                        let stream = format!("{}{}t\x07tail", pre, first);
+                        let data = stream.as_bytes();
+                        let whole = run_stream(20, 4, mode, &[data.to_vec()]);
+                        let at = pre.len();
+                        let mut cutsets: Vec<Vec<usize>> = Vec::new();
+                        for d in 0..=4usize {
+                            cutsets.push(vec![at + d]);
+                            if at >= d {
+                                cutsets.push(vec![at - d]);
+                            }
+                        }
+                        for b in [16usize, 32, 64, 256] {
+                            let blocks: Vec<usize> = (1..).map(|i| i * b).take_while(|x| *x < data.len()).collect();
+                            if !blocks.is_empty() {
+                                cutsets.push(blocks.clone());
+                                let mut with_at = blocks;
+                                with_at.push(at);
+                                with_at.sort();
+                                with_at.dedup();
+                                cutsets.push(with_at);
+                            }
+                        }
+                        for cuts in cutsets {
+                            let cuts: Vec<usize> = cuts.into_iter().filter(|c| *c > 0 && *c < data.len()).collect();
+                            if mode == Mode::Chars && cuts.iter().any(|c| !stream.is_char_boundary(*c)) {
+                                continue;
+                            }
+                            c02_pair(cx, 20, 4, mode, data, &cuts, &whole, "ascii-prefix");
+                        }
+                    }
+                }
+            }
+            cx.stats.exhaustive_parts.insert("ASCII prefixes of 20 lengths (0..4096) x 5 first non-ASCII characters (incl. U+FEFF) at the start of an OSC title x cuts at, around and inside that character and at every 16/32/64/256-byte block boundary".into());
         }
         while !cx.out_of_time() {
             let (c, l) = gen::pick_geom(&mut cx.rng, cx.tier);
